@@ -4,6 +4,7 @@ From Coq Require Import List NArith Bool.
 From SNT Require Import Base.Outcome Automata.Regex Automata.NFA Automata.Build Automata.Compile
   Automata.BuildLeaves Automata.BuildProofs Automata.CompileSpec Automata.CompileProofs Automata.BuildKeys
   Automata.C15Main Automata.RegexProofs Automata.CompileTotal.
+From SNT Require Automata.ProdInstances Gen.ProdNFA Gen.ProdDFA.
 Import ListNotations.
 Local Open Scope N_scope.
 
@@ -85,11 +86,24 @@ Theorem C15_terminal_dead : forall (e : regex) (fuel cf : nat) (d : dfa),
       end.
 Proof. exact main_terminal_dead. Qed.
 
-(* When alternatives of a choice carry tags (tagwf: a tag on an untagged
-   expression, choices of such, untagged expressions; nesting of choices allowed),
-   the tags reported after consuming a string are exactly the tags of the
-   alternatives that match the string. *)
-Theorem C15_tags : forall (e : regex) (fuel cf : nat) (d : dfa),
+(* Tags, general law (every expression, tags in any position): the tags reported
+   after a string are the tags of the NFA states of `build e` reachable by it
+   (a tag sits on the stop state of the sub-automaton it was put on). *)
+Theorem C15_tags_reachable : forall (e : regex) (fuel cf : nat) (d : dfa),
+  compile fuel cf (build e) = Ok d ->
+  forall s k, bytes s -> transition_many d (dstart d) s = Ok (Some k) ->
+    exists i, info d k = Ok i /\
+      forall t, In t (dtags i) <-> exists q, RS (build e) s q /\ has_tag (build e) q t.
+Proof. exact main_tags_reachable. Qed.
+
+(* Tags at the level of the expression — PARTIAL: only for expressions of the
+   tagged-choice shape `tagwf` (a tag on an untagged expression, choices of such
+   — nested choices allowed, as the decoder's automata —, or untagged).  There the
+   tags reported after a string are exactly the tags of the alternatives that
+   match the string.  Not covered: a tagged choice below Seq / Opt / Plus / Many,
+   tags below tags (the expression-level law there depends on which operators
+   share their stop state with an operand; C15_tags_reachable still applies). *)
+Theorem C15_tags_partial : forall (e : regex) (fuel cf : nat) (d : dfa),
   tagwf e = true -> compile fuel cf (build e) = Ok d ->
   forall s k, bytes s -> transition_many d (dstart d) s = Ok (Some k) ->
     exists i, info d k = Ok i /\ forall t, In t (dtags i) <-> tag_spec e s t.
@@ -103,6 +117,26 @@ Proof. exact matcher_correct. Qed.
 Theorem C15_isempty : forall e : regex,
   (isempty e = true -> forall s, ~ matches e s) /\ (isempty e = false -> exists s, matches e s).
 Proof. exact isempty_correct. Qed.
+
+(* The production automata of src/decoder.rs (anchor decoder.rs:457-1028): each
+   compiled DFA, as dumped from the running code on this run, is the subset
+   construction of the NFA it was compiled from, as dumped right before
+   compile(): running the DFA on any byte string is dead exactly when no NFA
+   state is reachable, otherwise accepting / tags / terminal are those of the
+   set of reachable NFA states.  Translation validation: a verified certificate
+   checker (Automata/ProdCheck.v, ProdCheckProofs.check_sound) evaluated on the
+   regenerated instances by vm_compute. *)
+Theorem C15_production_event :
+  ProdInstances.subset_construction ProdNFA.event_nfa_data ProdDFA.event_data.
+Proof. exact ProdInstances.event_subset_construction. Qed.
+
+Theorem C15_production_command :
+  ProdInstances.subset_construction ProdNFA.command_nfa_data ProdDFA.command_data.
+Proof. exact ProdInstances.command_subset_construction. Qed.
+
+Theorem C15_production_utf8 :
+  ProdInstances.subset_construction ProdNFA.utf8_nfa_data ProdDFA.utf8_data.
+Proof. exact ProdInstances.utf8_subset_construction. Qed.
 
 Check C15_main : forall (e : regex) (fuel cf : nat) (d : dfa),
   compile fuel cf (build e) = Ok d ->
@@ -120,6 +154,31 @@ Example C15_tags_nonvacuous :
    let* r := transition_many d (dstart d) [97; 98; 99] in
    match r with Some k => let* i := info d k in Ok (dtags i) | None => Ok [] end) = Ok [1; 3].
 Proof. vm_compute. split; reflexivity. Qed.
+
+(* C15_compile on an NFA that is not the image of `build` (hand written: two
+   ways to state 1, an epsilon edge, a tag on the stop state), showing the three
+   branches: a terminal state, a dead transition, a live non-terminal state *)
+Definition hand_nfa : nfa :=
+  mknfa 0 1 [ mkst [(97, 1%nat)] [2%nat] None; mkst [] [] (Some 7); mkst [(98, 1%nat); (99, 2%nat)] [] None ].
+
+Example C15_compile_nonvacuous :
+  keys_ok hand_nfa /\
+  exists d, compile_default hand_nfa = Ok d /\
+    (* "a": accepting, terminal, tag 7 *)
+    (let* r := transition_many d (dstart d) [97] in
+     match r with Some k => let* i := info d k in Ok (accepting i, terminal i, dtags i) | None => Ok (false, false, []) end)
+      = Ok (true, true, [7]) /\
+    (* "ab": dead *)
+    transition_many d (dstart d) [97; 98] = Ok None /\
+    (* "c": live, not accepting, not terminal *)
+    (let* r := transition_many d (dstart d) [99] in
+     match r with Some k => let* i := info d k in Ok (accepting i, terminal i, dtags i) | None => Ok (true, true, []) end)
+      = Ok (false, false, []).
+Proof.
+  split.
+  - unfold keys_ok, hand_nfa. cbn. repeat constructor; cbn; intuition discriminate.
+  - eexists. split; [vm_compute; reflexivity|]. vm_compute. repeat split; reflexivity.
+Qed.
 
 Example C15_nonvacuous :
   (let* d := compile_default (build (Opt (Seq [Plus (Lit [97]); Lit [98]]))) in dfa_matches d [97]) = Ok false /\
